@@ -735,6 +735,15 @@ def z3_eq(formula_1: z3.ExprRef, formula_2: z3.ExprRef | str | int) -> z3.BoolRe
     )
 
 
+def z3_string_val(value: str) -> z3.SeqRef:
+    r"""
+    Creates a Z3 string constant consisting of exactly the characters of `value`.
+    `z3.StringVal` alone passes backslashes on to Z3, which reads text like `\u{41}`
+    as an escape sequence.
+    """
+    return z3.StringVal(value.replace("\\", "\\u{5c}"))
+
+
 def z3_and(formulas: Sequence[z3.BoolRef]) -> z3.BoolRef:
     if not formulas:
         return z3.BoolRef(True)
